@@ -9,6 +9,13 @@ package standard
 // provider, slot-selection signer (chooses signatures so that the scalar h of the aggregator rule is
 // the one the scenario asks for), attester, chain time, scheduler (verifsupport), recording
 // subscriptions submitter, recording Aggregate sink.
+//
+// History of the controller's subscription-info store: a re-org is driven through the REAL
+// HandleHeadEvent (a head event whose previous / current duty dependent root differs ->
+// checkEventForReorg -> refreshAttesterDutiesForEpoch -> go subscribeToBeaconCommittees).  The duties
+// provider of the real subscriber sits behind a gate: while the driver sends the re-org head event the
+// gate holds the re-subscription (it is "in flight"); a later Resub step lets it go, answering or
+// failing.  AttestAndScheduleAggregate runs at whatever point of that history the scenario says.
 
 import (
 	"context"
@@ -63,6 +70,11 @@ type c14Step struct {
 	H          uint64   `json:"h"`
 	Committees []uint64 `json:"committees"`
 	Ok         bool     `json:"ok"`
+	Op         string   `json:"op"`    // Duty: "add" (default) or "drop"
+	Fail       bool     `json:"fail"`  // Subscribe / Resub: the scripted beacon node fails the duties request
+	Reorg      bool     `json:"reorg"` // Head: the event carries a changed duty dependent root for the epoch
+	Spe        uint64   `json:"spe"`   // Reset: slots per epoch
+	Ep         uint64   `json:"ep"`    // Reset: epoch of the scenario's duties (before the shift)
 }
 
 type c14Scenario struct {
@@ -109,6 +121,8 @@ func (s *c14Spec) Spec(_ context.Context, _ *api.SpecOpts) (*api.Response[map[st
 			"SECONDS_PER_SLOT":                 c14SlotDuration,
 			"SLOTS_PER_EPOCH":                  s.spe,
 			"TARGET_AGGREGATORS_PER_COMMITTEE": s.target,
+			// read by handleCurrentDependentRootChanged (modulus)
+			"EPOCHS_PER_SYNC_COMMITTEE_PERIOD": uint64(256),
 		},
 		Metadata: map[string]any{},
 	}, nil
@@ -181,6 +195,69 @@ func (d *c14Duties) AttesterDuties(_ context.Context, opts *api.AttesterDutiesOp
 	return &api.Response[[]*apiv1.AttesterDuty]{Data: res, Metadata: map[string]any{}}, nil
 }
 
+// c14Gate stands at the beacon node's AttesterDuties endpoint as seen by the real subscriber.  While
+// hold is set, a call is held (the subscription it belongs to is in flight) until the driver lets it
+// go with a verdict; otherwise it passes, or fails when fail is set.
+type c14Gate struct {
+	mu   sync.Mutex
+	hold bool
+	fail bool
+	held []chan bool // one per held call, in order of arrival
+}
+
+func (g *c14Gate) enter() bool {
+	g.mu.Lock()
+	if !g.hold {
+		ok := !g.fail
+		g.mu.Unlock()
+		return ok
+	}
+	ch := make(chan bool, 1)
+	g.held = append(g.held, ch)
+	g.mu.Unlock()
+	return <-ch
+}
+
+func (g *c14Gate) set(hold, fail bool) {
+	g.mu.Lock()
+	g.hold, g.fail = hold, fail
+	g.mu.Unlock()
+}
+
+func (g *c14Gate) nheld() int {
+	g.mu.Lock()
+	defer g.mu.Unlock()
+	return len(g.held)
+}
+
+// release lets the oldest held call go; false if none is held.
+func (g *c14Gate) release(ok bool) bool {
+	g.mu.Lock()
+	if len(g.held) == 0 {
+		g.mu.Unlock()
+		return false
+	}
+	ch := g.held[0]
+	g.held = g.held[1:]
+	g.mu.Unlock()
+	ch <- ok
+	return true
+}
+
+// c14GatedDuties is the duties provider given to the real beacon committee subscriber.
+type c14GatedDuties struct {
+	gate  *c14Gate
+	inner *c14Duties
+}
+
+func (d *c14GatedDuties) AttesterDuties(ctx context.Context, opts *api.AttesterDutiesOpts) (*api.Response[[]*apiv1.AttesterDuty], error) {
+	if !d.gate.enter() {
+		return nil, errors.New("c14: scripted failure of the beacon node")
+	}
+	// the oracle is read when the call is let go
+	return d.inner.AttesterDuties(ctx, opts)
+}
+
 type c14Submitter struct {
 	mu    sync.Mutex
 	calls int
@@ -193,6 +270,27 @@ func (s *c14Submitter) SubmitBeaconCommitteeSubscriptions(_ context.Context, sub
 	s.calls++
 	s.subs = append(s.subs, subs...)
 	return nil
+}
+
+func (s *c14Submitter) reset() {
+	s.mu.Lock()
+	s.calls = 0
+	s.subs = nil
+	s.mu.Unlock()
+}
+
+// collect is what the submitter received since reset.
+func (s *c14Submitter) collect() ([]verifsupport.Ev, int) {
+	s.mu.Lock()
+	subs := make([]verifsupport.Ev, 0, len(s.subs))
+	for _, x := range s.subs {
+		subs = append(subs, verifsupport.Ev{"slot": uint64(x.Slot), "committee": uint64(x.CommitteeIndex),
+			"v": uint64(x.ValidatorIndex), "agg": x.IsAggregator})
+	}
+	calls := s.calls
+	s.mu.Unlock()
+	c14Sort(subs)
+	return subs, calls
 }
 
 type c14Attester struct {
@@ -267,6 +365,20 @@ func c14Quiesce(t *testing.T, base int, what string) {
 	}
 }
 
+// c14QuiesceHeld waits until every goroutine started since base was taken (base = goroutines that were
+// running, i.e. not held at the gate) has ended or is held at the gate.
+func c14QuiesceHeld(t *testing.T, g *c14Gate, base int, what string) {
+	t.Helper()
+	deadline := time.Now().Add(20 * time.Second)
+	for runtime.NumGoroutine()-g.nheld() > base {
+		if time.Now().After(deadline) {
+			t.Fatalf("c14: no quiescence after %s (%d goroutines, %d held, base %d)", what, runtime.NumGoroutine(), g.nheld(), base)
+		}
+		runtime.Gosched()
+		time.Sleep(50 * time.Microsecond)
+	}
+}
+
 type c14World struct {
 	spe     uint64
 	off     uint64
@@ -281,6 +393,80 @@ type c14World struct {
 	accMap  map[phase0.ValidatorIndex]e2wtypes.Account
 	svc     *Service
 	allDuty []c14Step // real slots
+	gate    *c14Gate
+	epoch   uint64 // epoch of the scenario's duties (real)
+	haveEp  bool
+	// head events sent so far: the dependent roots the controller knows
+	primed    bool
+	headEpoch uint64
+	prevRoot  phase0.Root
+	curRoot   phase0.Root
+	rootCtr   uint64
+	// Reset line of a scenario that does not name its epoch: emitted with the first duty
+	pendingReset verifsupport.Ev
+}
+
+func (w *c14World) freshRoot() phase0.Root {
+	w.rootCtr++
+	var r phase0.Root
+	binary.LittleEndian.PutUint64(r[0:8], w.rootCtr)
+	r[31] = 0x14
+	return r
+}
+
+// sendHead hands a head event for the current slot to the real controller and waits until everything
+// the handler started has ended or is held at the gate.  Returns the number of newly held calls.
+func (w *c14World) sendHead(t *testing.T, what string) int {
+	t.Helper()
+	slot := w.ct.CurrentSlot()
+	before := w.gate.nheld()
+	base := runtime.NumGoroutine() - before
+	var block phase0.Root
+	block = w.freshRoot()
+	w.svc.HandleHeadEvent(&apiv1.Event{
+		Topic: "head",
+		Data: &apiv1.HeadEvent{
+			Slot:                      slot,
+			Block:                     block,
+			State:                     w.freshRoot(),
+			PreviousDutyDependentRoot: w.prevRoot,
+			CurrentDutyDependentRoot:  w.curRoot,
+		},
+	})
+	c14QuiesceHeld(t, w.gate, base, what)
+	return w.gate.nheld() - before
+}
+
+// neutralHead sends a head event that is consistent with what the controller knows (no re-org): the
+// first one fixes the roots; across an epoch boundary the old current root becomes the previous one.
+func (w *c14World) neutralHead(t *testing.T) int {
+	t.Helper()
+	e := uint64(w.ct.CurrentEpoch())
+	switch {
+	case !w.primed:
+		w.prevRoot, w.curRoot = w.freshRoot(), w.freshRoot()
+		w.primed = true
+	case e > w.headEpoch:
+		w.prevRoot, w.curRoot = w.curRoot, w.freshRoot()
+	}
+	w.headEpoch = e
+	return w.sendHead(t, "head event")
+}
+
+func (w *c14World) emitHead(tr *verifsupport.Trace, sc int, reorg bool, resub int) {
+	info, present := w.projectInfo(phase0.Epoch(w.epoch))
+	tr.Emit(verifsupport.Ev{"sc": sc, "ev": "Head", "reorg": reorg, "resub": resub, "info": info, "present": present,
+		"now": uint64(w.ct.CurrentSlot()), "inflight": w.gate.nheld()})
+}
+
+// drain ends what is still in flight (not part of the trace).
+func (w *c14World) drain(t *testing.T) {
+	t.Helper()
+	for w.gate.nheld() > 0 {
+		base := runtime.NumGoroutine() - w.gate.nheld()
+		w.gate.release(false)
+		c14QuiesceHeld(t, w.gate, base, "drain")
+	}
 }
 
 func c14Build(t *testing.T, ctx context.Context, spe, target, now uint64) *c14World {
@@ -290,6 +476,7 @@ func c14Build(t *testing.T, ctx context.Context, spe, target, now uint64) *c14Wo
 	w.ct.SetSlot(now)
 	w.sched = verifsupport.NewScheduler()
 	w.duties = &c14Duties{spe: spe}
+	w.gate = &c14Gate{}
 	w.signer = &c14Signer{sigs: map[[2]uint64]phase0.BLSSignature{}}
 	w.sub = &c14Submitter{}
 	w.att = &c14Attester{spe: spe}
@@ -318,7 +505,7 @@ func c14Build(t *testing.T, ctx context.Context, spe, target, now uint64) *c14Wo
 		standardbeaconcommitteesubscriber.WithProcessConcurrency(4),
 		standardbeaconcommitteesubscriber.WithMonitor(nullmetrics.New()),
 		standardbeaconcommitteesubscriber.WithChainTimeService(w.ct),
-		standardbeaconcommitteesubscriber.WithAttesterDutiesProvider(w.duties),
+		standardbeaconcommitteesubscriber.WithAttesterDutiesProvider(&c14GatedDuties{gate: w.gate, inner: w.duties}),
 		standardbeaconcommitteesubscriber.WithAttestationAggregator(realAgg),
 		standardbeaconcommitteesubscriber.WithBeaconCommitteeSubmitter(w.sub),
 	)
@@ -370,10 +557,13 @@ func (w *c14World) account(v uint64) e2wtypes.Account {
 	return a
 }
 
-func (w *c14World) projectInfo(epoch phase0.Epoch) []verifsupport.Ev {
+// projectInfo is the controller's stored subscription info for the epoch, and whether the store has an
+// entry for the epoch at all.
+func (w *c14World) projectInfo(epoch phase0.Epoch) ([]verifsupport.Ev, bool) {
 	w.svc.subscriptionInfosMutex.Lock()
 	defer w.svc.subscriptionInfosMutex.Unlock()
 	res := make([]verifsupport.Ev, 0)
+	_, present := w.svc.subscriptionInfos[epoch]
 	for slot, m := range w.svc.subscriptionInfos[epoch] {
 		for committee, sub := range m {
 			if sub == nil || sub.Duty == nil {
@@ -384,7 +574,7 @@ func (w *c14World) projectInfo(epoch phase0.Epoch) []verifsupport.Ev {
 		}
 	}
 	c14Sort(res)
-	return res
+	return res, present
 }
 
 func c14Sort(evs []verifsupport.Ev) {
@@ -423,20 +613,72 @@ func TestVerifC14(t *testing.T) {
 		for _, st := range sc.Steps {
 			switch st.Ev {
 			case "Reset":
+				if st.Spe != 0 {
+					spe = st.Spe
+				}
 				w = c14Build(t, ctx, spe, st.Target, st.Now+off)
 				w.off = off
-				tr.Emit(verifsupport.Ev{"sc": sc.Sc, "ev": "Reset", "now": st.Now + off, "target": st.Target, "spe": spe, "off": off})
+				// Vouch's validators (accounts) are the same throughout: a re-org changes duties, not accounts.
+				for _, x := range sc.Steps {
+					if x.Ev == "Duty" {
+						w.account(x.V)
+					}
+				}
+				if st.Ep != 0 {
+					w.epoch, w.haveEp = st.Ep+off/spe, true
+				} else {
+					// scenario without an epoch: the epoch of the first duty (0 until then)
+					w.epoch = 0
+				}
+				ev := verifsupport.Ev{"sc": sc.Sc, "ev": "Reset", "now": st.Now + off, "target": st.Target, "spe": spe, "off": off}
+				if w.haveEp {
+					ev["epoch"] = w.epoch
+					tr.Emit(ev)
+				} else {
+					w.pendingReset = ev
+				}
 			case "Duty":
 				slot := st.Slot + off
+				if !w.haveEp {
+					w.epoch, w.haveEp = slot/spe, true
+				}
+				if w.pendingReset != nil {
+					w.pendingReset["epoch"] = w.epoch
+					tr.Emit(w.pendingReset)
+					w.pendingReset = nil
+				}
 				w.account(st.V)
 				key := [2]uint64{st.V, slot}
 				w.signer.mu.Lock()
 				sig, ok := w.signer.sigs[key]
 				if !ok {
+					// a validator has one signature per slot, whatever the oracle says
 					sig = c14FindSig(st.V, slot, st.H)
 					w.signer.sigs[key] = sig
 				}
 				w.signer.mu.Unlock()
+				if st.Op == "drop" {
+					w.duties.mu.Lock()
+					kept := w.duties.duties[:0:0]
+					size := st.Size
+					found := false
+					for _, d := range w.duties.duties {
+						if !found && uint64(d.Slot) == slot && uint64(d.ValidatorIndex) == st.V && uint64(d.CommitteeIndex) == st.Committee {
+							found = true
+							size = d.CommitteeLength
+							continue
+						}
+						kept = append(kept, d)
+					}
+					w.duties.duties = kept
+					w.duties.mu.Unlock()
+					if !found {
+						t.Fatalf("c14: scenario %d drops a duty that the oracle does not have", sc.Sc)
+					}
+					tr.Emit(verifsupport.Ev{"sc": sc.Sc, "ev": "Duty", "op": "drop", "v": st.V, "slot": slot, "committee": st.Committee,
+						"size": size, "h": c14H(sig)})
+					break
+				}
 				w.duties.mu.Lock()
 				w.duties.duties = append(w.duties.duties, &apiv1.AttesterDuty{
 					PubKey:                  phase0.BLSPubKey(w.accMap[phase0.ValidatorIndex(st.V)].(*c14Account).pub.b),
@@ -451,39 +693,67 @@ func TestVerifC14(t *testing.T) {
 				real := st
 				real.Slot = slot
 				w.allDuty = append(w.allDuty, real)
-				tr.Emit(verifsupport.Ev{"sc": sc.Sc, "ev": "Duty", "v": st.V, "slot": slot, "committee": st.Committee,
+				tr.Emit(verifsupport.Ev{"sc": sc.Sc, "ev": "Duty", "op": "add", "v": st.V, "slot": slot, "committee": st.Committee,
 					"size": st.Size, "h": c14H(sig)})
 			case "Advance":
 				w.ct.SetSlot(st.Now + off)
 				tr.Emit(verifsupport.Ev{"sc": sc.Sc, "ev": "Advance", "now": st.Now + off})
 			case "Subscribe":
-				// The epoch of the scenario's duties (all duties of a scenario lie in one epoch).
-				if len(w.allDuty) == 0 {
+				// A synchronous subscription for the epoch of the scenario's duties (epoch preparation).
+				if !w.haveEp {
 					t.Fatalf("c14: Subscribe without duties in scenario %d", sc.Sc)
 				}
-				epoch := phase0.Epoch(w.allDuty[0].Slot / spe)
-				w.sub.mu.Lock()
-				w.sub.calls = 0
-				w.sub.subs = nil
-				w.sub.mu.Unlock()
+				epoch := phase0.Epoch(w.epoch)
+				w.sub.reset()
 				accounts := make(map[phase0.ValidatorIndex]e2wtypes.Account, len(w.accMap))
 				for k, v := range w.accMap {
 					accounts[k] = v
 				}
-				base := runtime.NumGoroutine()
+				w.gate.set(false, st.Fail)
+				base := runtime.NumGoroutine() - w.gate.nheld()
 				w.svc.subscribeToBeaconCommittees(ctx, epoch, accounts)
-				c14Quiesce(t, base, "Subscribe")
-				w.sub.mu.Lock()
-				subs := make([]verifsupport.Ev, 0, len(w.sub.subs))
-				for _, s := range w.sub.subs {
-					subs = append(subs, verifsupport.Ev{"slot": uint64(s.Slot), "committee": uint64(s.CommitteeIndex),
-						"v": uint64(s.ValidatorIndex), "agg": s.IsAggregator})
-				}
-				calls := w.sub.calls
-				w.sub.mu.Unlock()
-				c14Sort(subs)
-				tr.Emit(verifsupport.Ev{"sc": sc.Sc, "ev": "Subscribe", "epoch": uint64(epoch), "info": w.projectInfo(epoch),
+				c14QuiesceHeld(t, w.gate, base, "Subscribe")
+				w.gate.set(false, false)
+				subs, calls := w.sub.collect()
+				info, present := w.projectInfo(epoch)
+				tr.Emit(verifsupport.Ev{"sc": sc.Sc, "ev": "Subscribe", "ok": !st.Fail, "epoch": uint64(epoch), "info": info, "present": present,
 					"subs": subs, "calls": calls})
+			case "Head":
+				// A head event for the current slot through the real HandleHeadEvent.  With reorg, the event
+				// carries a changed previous (current) duty dependent root when the epoch of the duties is the
+				// current (next) one, which makes the controller refresh the attester duties of that epoch; the
+				// re-subscription it starts is held at the gate.
+				e := uint64(w.ct.CurrentEpoch())
+				applicable := w.haveEp && (e == w.epoch || e+1 == w.epoch)
+				if !st.Reorg || !applicable {
+					w.emitHead(tr, sc.Sc, false, w.neutralHead(t))
+					break
+				}
+				if !w.primed || w.headEpoch != e {
+					// the controller compares with the roots of the last head event of this epoch
+					w.emitHead(tr, sc.Sc, false, w.neutralHead(t))
+				}
+				if e == w.epoch {
+					w.prevRoot = w.freshRoot()
+				} else {
+					w.curRoot = w.freshRoot()
+				}
+				w.gate.set(true, false)
+				n := w.sendHead(t, "re-org head event")
+				w.gate.set(false, false)
+				w.emitHead(tr, sc.Sc, true, n)
+			case "Resub":
+				// A re-subscription in flight is let go: the beacon node answers (with the duties as they are
+				// now) or fails.
+				w.sub.reset()
+				base := runtime.NumGoroutine() - w.gate.nheld()
+				released := w.gate.release(!st.Fail)
+				// the goroutine let go runs on until the subscription has ended
+				c14QuiesceHeld(t, w.gate, base, "Resub")
+				subs, calls := w.sub.collect()
+				info, present := w.projectInfo(phase0.Epoch(w.epoch))
+				tr.Emit(verifsupport.Ev{"sc": sc.Sc, "ev": "Resub", "ok": released && !st.Fail, "released": released, "info": info,
+					"present": present, "subs": subs, "calls": calls, "inflight": w.gate.nheld()})
 			case "Attest":
 				slot := st.Slot + off
 				var slotDuties []*apiv1.AttesterDuty
@@ -515,7 +785,15 @@ func TestVerifC14(t *testing.T) {
 				w.agg.mu.Unlock()
 				at := uint64(w.ct.CurrentSlot())
 
-				w.svc.AttestAndScheduleAggregate(ctx, duty)
+				// After a refresh the controller has made its own attestation job for the slot (from the duties
+				// it re-fetched): that one runs.  Otherwise the job of the epoch preparation, which the driver
+				// stands in for.
+				via := "direct"
+				if w.sched.Fire(ctx, fmt.Sprintf("Attestations for slot %d", slot)) {
+					via = "job"
+				} else {
+					w.svc.AttestAndScheduleAggregate(ctx, duty)
+				}
 
 				jobs := make([]verifsupport.Ev, 0)
 				for _, job := range w.sched.Snapshot() {
@@ -553,11 +831,14 @@ func TestVerifC14(t *testing.T) {
 				if committees == nil {
 					committees = []uint64{}
 				}
-				tr.Emit(verifsupport.Ev{"sc": sc.Sc, "ev": "Attest", "slot": slot, "committees": committees, "ok": st.Ok, "jobs": jobs,
+				tr.Emit(verifsupport.Ev{"sc": sc.Sc, "ev": "Attest", "slot": slot, "committees": committees, "ok": st.Ok, "jobs": jobs, "via": via,
 					"pending": w.svc.HasPendingAttestations(ctx, phase0.Slot(slot))})
 			default:
 				t.Fatalf("c14: unknown step %q", st.Ev)
 			}
+		}
+		if w != nil {
+			w.drain(t)
 		}
 	}
 }
